@@ -297,4 +297,92 @@ theorem generateValueV2_spec {ε : Type} (literalEval : Str → Except ε Lit) (
   | error e => right; exact ⟨v, by simp⟩
   | ok x => left; exact ⟨x, by simp⟩
 
+/-! ### the guard `_is_plain_value` against the serialisation of the state (phase 6) -/
+
+theorem Lit.allEncodableKV_of_strKeys : (kvs : List (Lit × Lit)) → kvs.all Lit.isStrKey = true → Lit.allEncodableKV kvs = Lit.allEncodableV kvs
+  | [], _ => by simp [Lit.allEncodableKV, Lit.allEncodableV]
+  | (k, v) :: xs, h => by
+    simp only [List.all_cons, Bool.and_eq_true] at h
+    have ih := Lit.allEncodableKV_of_strKeys xs h.2
+    cases k <;> simp_all [Lit.isStrKey, Lit.allEncodableKV, Lit.allEncodableV, Lit.encodable]
+
+mutual
+/-- the guard accepts EXACTLY the values `encode_to_dict` accepts — at every position of the literal, dict keys included -/
+theorem Lit.isPlain_eq_encodable : (x : Lit) → x.isPlain = x.encodable
+  | .none | .bool _ | .int _ | .float _ | .str _ => by simp [Lit.isPlain, Lit.encodable]
+  | .bytes _ | .complex _ | .ellipsis => by simp [Lit.isPlain, Lit.encodable]
+  | .list l | .tuple l | .set l => by simp [Lit.isPlain, Lit.encodable, Lit.allPlain_eq l]
+  | .dict kvs => by
+    simp only [Lit.isPlain, Lit.encodable]
+    rw [Lit.allPlainKV_eq kvs]
+    split
+    · rename_i h; exact Lit.allEncodableKV_of_strKeys kvs h
+    · rfl
+theorem Lit.allPlain_eq : (l : List Lit) → Lit.allPlain l = Lit.allEncodable l
+  | [] => by simp [Lit.allPlain, Lit.allEncodable]
+  | x :: xs => by simp [Lit.allPlain, Lit.allEncodable, Lit.isPlain_eq_encodable x, Lit.allPlain_eq xs]
+theorem Lit.allPlainKV_eq : (l : List (Lit × Lit)) → Lit.allPlainKV l = Lit.allEncodableKV l
+  | [] => by simp [Lit.allPlainKV, Lit.allEncodableKV]
+  | (k, v) :: xs => by simp [Lit.allPlainKV, Lit.allEncodableKV, Lit.isPlain_eq_encodable k, Lit.isPlain_eq_encodable v, Lit.allPlainKV_eq xs]
+end
+
+theorem Lit.allPlain_mem : (l : List Lit) → Lit.allPlain l = true → ∀ x ∈ l, x.isPlain = true
+  | [], _ => by simp
+  | y :: ys, h => by
+    simp only [Lit.allPlain, Bool.and_eq_true] at h
+    intro x hx
+    rcases List.mem_cons.mp hx with rfl | hx
+    · exact h.1
+    · exact Lit.allPlain_mem ys h.2 x hx
+
+theorem Lit.allPlainKV_mem : (l : List (Lit × Lit)) → Lit.allPlainKV l = true → ∀ kv ∈ l, kv.1.isPlain = true ∧ kv.2.isPlain = true
+  | [], _ => by simp
+  | (k, v) :: ys, h => by
+    simp only [Lit.allPlainKV, Bool.and_eq_true] at h
+    intro x hx
+    rcases List.mem_cons.mp hx with rfl | hx
+    · exact ⟨h.1.1, h.1.2⟩
+    · exact Lit.allPlainKV_mem ys h.2 x hx
+
+theorem generateValueV2R_ok_plain {ε : Type} (literalEval : Str → Except ε Lit) (p : Parser) (lpl out : Str) (x : Lit)
+    (h : generateValueV2R literalEval p lpl out = .ok x) : x.isPlain = true := by
+  unfold generateValueV2R at h
+  split at h
+  · simp at h
+  · split at h
+    · simp at h
+    · split at h
+      · rename_i hp
+        simp only [Except.ok.injEq] at h
+        subst h
+        exact hp
+      · simp at h
+
+theorem generateValueV2S_ok {ε : Type} (literalEval : Str → Except ε Lit) (p : Parser) (lpl out : Str) (x : Lit)
+    (h : generateValueV2S literalEval p lpl out = .ok x) : x.isPlain = true ∧ x.printable = true := by
+  unfold generateValueV2S at h
+  split at h
+  · simp at h
+  · split at h
+    · simp at h
+    · split at h
+      · rename_i hp
+        simp only [Except.ok.injEq] at h
+        subst h
+        simpa using hp
+      · simp at h
+
+theorem generateValueV2S_spec {ε : Type} (literalEval : Str → Except ε Lit) (p : Parser) (lpl out : Str) :
+    (∃ x, generateValueV2S literalEval p lpl out = .ok x)
+    ∨ ∃ v, generateValueV2S literalEval p lpl out = .error (.invalidLlmResponse v) := by
+  obtain ⟨v, hv⟩ := postValueV2_ok p lpl out
+  unfold generateValueV2S
+  simp only [hv]
+  cases h : literalEval v with
+  | error e => right; exact ⟨v, by simp⟩
+  | ok x =>
+    cases hp : (x.isPlain && x.printable) with
+    | true => left; exact ⟨x, by simp [hp]⟩
+    | false => right; exact ⟨v, by simp [hp]⟩
+
 end NemoVerif.LlmText
